@@ -216,6 +216,11 @@ def vacuity_probe(r, tops_only, scratch, tops):
         if f.path in ok:
             return ok[f.path]
         c = tails.get('::'.join(f.path.split('::')[-2:]), [])
+        if len(c) == 1:
+            return ok[c[0]]
+        # a method of a trait impl is reported as `<module>::impl&%N::<name>`: match by module and method name
+        mod, name = '::'.join(f.path.split('::')[:-2]), f.path.split('::')[-1]
+        c = [k for k in ok if k.split('::')[-1] == name and '::'.join(k.split('::')[:-2]) == mod and 'impl&%' in k]
         return ok[c[0]] if len(c) == 1 else True
     survivors = [f.path for f in targets if verdict(f)]
     return len(targets), survivors
